@@ -1,7 +1,8 @@
-//! `pool` / `pool2` cases (C12): operation sequences on the real `AsyncPool` of /repo/device over
-//! the fake libusb of fake_usb.rs.  One case per line:
+//! `pool` / `pool2` / `pool3` cases (C12): operation sequences on the real `AsyncPool` of /repo/device
+//! over the fake libusb of fake_usb.rs.  One case per line:
 //!   pool  nplan { 0 code | 1 status len delay }*       nops { op arg }*
 //!   pool2 nplan { 0 code | 1 status len delay clat }*  nev { code }*  nops { op arg }*
+//!   pool3 nplan { 0 code | 1 status len delay clat }*  nev { code }*  nlk { lock }*  nops { op arg }*
 //!     plan entry per libusb_submit_transfer call: 0 = refused with libusb error `code` (negative),
 //!       1 = accepted, completes with libusb_transfer_status `status` and `len` bytes once `delay`
 //!       further poll operations have begun; once cancelled it completes with CANCELLED after `clat`
@@ -9,12 +10,20 @@
 //!       completes at once with a full buffer
 //!     event plan: return code of each libusb_handle_events_locked call in turn (0 = events are
 //!       handled, otherwise a libusb error code, nothing is handled); past the end: 0
+//!     lock plan (`pool3`; `pool` / `pool2`: empty): what the other threads of the process do with libusb's
+//!       events lock in each round of poll_completed's loop in turn: 0 = nothing (libusb_try_lock_events
+//!       succeeds), 1 = the lock is taken but its holder has left when libusb_event_handler_active is asked,
+//!       2 + n = another thread handles events, a wait for it returns after n virtual microseconds with the
+//!       events handled (see fake_usb.rs); past the end: 0
 //!     ops: 1 len submit | 2 ms poll | 3 0 pending | 4 0 cancel_all | 5 0 drop the pool |
-//!          6 0 new pool | 7 0 is_empty | 9 code append `code` to the event plan
-//! Output: per op  1 -> 0 | 1 class ;  2 -> 0 len data_ok pending_after | 1 class pending_after | -1 (empty pool) ;
-//!   3 -> n ;  4 -> (nothing) ;  5 -> in_flight_after freed_while_in_flight event_calls ;  6, 9 -> (nothing) ;
-//!   7 -> 0|1 ;  a panic -> 2 -9 -1 and the case ends;
+//!          6 0 new pool | 7 0 is_empty | 9 code append `code` to the event plan | 10 lock append to the lock plan
+//! Output: per op  1 -> 0 | 1 class ;
+//!   2 -> 0 len data_ok pending_after trylock_calls event_calls | 1 class pending_after trylock_calls event_calls |
+//!        -1 (empty pool)    (the two call counts: since the case began) ;
+//!   3 -> n ;  4 -> (nothing) ;  5 -> in_flight_after freed_while_in_flight event_calls trylock_calls ;
+//!   6, 9, 10 -> (nothing) ;  7 -> 0|1 ;  a panic -> 2 -9 -1 and the case ends;
 //!   then -9 submit_calls accepted refused completed cancel_not_found in_flight freed_while_in_flight event_calls
+//!           trylock_calls trylock_failed waits_for_event waits_with_no_active_handler virtual_us_gone_by
 //! Time is virtual (see fake_usb.rs): no operation sleeps.  A case that does not end (a drop / poll
 //! waiting for a transfer that was never submitted) makes the process exit with status 3 after 6 real
 //! seconds (vplib marks the case [4]).
@@ -84,9 +93,10 @@ fn main() {
             continue;
         }
         let mut it = l.split_whitespace();
-        let v2 = match it.next() {
-            Some("pool") => false,
-            Some("pool2") => true,
+        let ver = match it.next() {
+            Some("pool") => 1,
+            Some("pool2") => 2,
+            Some("pool3") => 3,
             _ => {
                 println!("-99");
                 continue;
@@ -94,14 +104,21 @@ fn main() {
         };
         let toks: Vec<i64> = it.map(|t| t.parse().unwrap()).collect();
         CASE_START_MS.store(fake_usb::real_ms() - t0 + 1, Ordering::SeqCst);
-        let out = run_case(&chan, &toks, v2);
+        let out = run_case(&chan, &toks, ver);
         CASE_START_MS.store(0, Ordering::SeqCst);
         let s: Vec<String> = out.iter().map(|v| v.to_string()).collect();
         println!("{}", s.join(" "));
     }
 }
 
-fn run_case(chan: &cameleon_device::u3v::ReceiveChannel, t: &[i64], v2: bool) -> Vec<i64> {
+/// libusb_try_lock_events and libusb_handle_events_locked calls since the case began
+fn counts() -> [i64; 2] {
+    let st = fake_usb::state();
+    [st.trylock_calls as i64, st.event_calls as i64]
+}
+
+fn run_case(chan: &cameleon_device::u3v::ReceiveChannel, t: &[i64], ver: u32) -> Vec<i64> {
+    let v2 = ver >= 2;
     let mut p = 0;
     let mut next = || {
         let v = t[p];
@@ -127,12 +144,18 @@ fn run_case(chan: &cameleon_device::u3v::ReceiveChannel, t: &[i64], v2: bool) ->
             evplan.push(next() as i32);
         }
     }
+    let mut lockplan = vec![];
+    if ver >= 3 {
+        for _ in 0..next() {
+            lockplan.push(fake_usb::lock_of(next()));
+        }
+    }
     let nops = next();
     let mut ops = vec![];
     for _ in 0..nops {
         ops.push((next(), next()));
     }
-    fake_usb::reset(plan, evplan);
+    fake_usb::reset(plan, evplan, lockplan);
 
     let mut out: Vec<i64> = vec![];
     // the buffers outlive every pool of the case; (buffer, number of the accepted transfer) of the
@@ -177,6 +200,7 @@ fn run_case(chan: &cameleon_device::u3v::ReceiveChannel, t: &[i64], v2: bool) ->
                                     None => false,
                                 };
                                 out.extend([0, len as i64, ok as i64, pl.pending() as i64]);
+                                out.extend(counts());
                             }
                             Err(e) => {
                                 let c = class(&e);
@@ -186,6 +210,7 @@ fn run_case(chan: &cameleon_device::u3v::ReceiveChannel, t: &[i64], v2: bool) ->
                                     expect.pop_front();
                                 }
                                 out.extend([1, c, pl.pending() as i64]);
+                                out.extend(counts());
                             }
                         }
                     }
@@ -202,7 +227,7 @@ fn run_case(chan: &cameleon_device::u3v::ReceiveChannel, t: &[i64], v2: bool) ->
                     drop(pl);
                     expect.clear();
                     let st = fake_usb::state();
-                    out.extend([st.inflight.len() as i64, st.freed_while_inflight as i64, st.event_calls as i64]);
+                    out.extend([st.inflight.len() as i64, st.freed_while_inflight as i64, st.event_calls as i64, st.trylock_calls as i64]);
                 }
             }
             6 => {
@@ -212,6 +237,7 @@ fn run_case(chan: &cameleon_device::u3v::ReceiveChannel, t: &[i64], v2: bool) ->
             }
             7 => out.push(pool.as_ref().map(|p| p.is_empty() as i64).unwrap_or(-1)),
             9 => fake_usb::state().evplan.push_back(arg as i32),
+            10 => fake_usb::state().lockplan.push_back(fake_usb::lock_of(arg)),
             _ => panic!("bad op"),
         }));
         if r.is_err() {
@@ -238,6 +264,11 @@ fn run_case(chan: &cameleon_device::u3v::ReceiveChannel, t: &[i64], v2: bool) ->
         st.inflight.len() as i64,
         st.freed_while_inflight as i64,
         st.event_calls as i64,
+        st.trylock_calls as i64,
+        st.trylock_failed as i64,
+        st.waits as i64,
+        st.waits_no_handler as i64,
+        fake_usb::case_clock_us() as i64,
     ]);
     drop(st);
     drop(buffers);
